@@ -420,6 +420,41 @@ fn c09_units(tier: Tier) -> Vec<Unit> {
             ctx.sample(json!({"op": "alias", "passes": 3, "bytes_per_pass": 2114122}));
         },
     ));
+    // ---- every value into every I/O register: no register write changes what any other location reads or
+    //      where any other location's writes go (control registers that re-map memory would show here)
+    {
+        let thorough = tier == Tier::Thorough;
+        units.push(Unit::new(
+            "register-values",
+            64,
+            "every I/O register address (H'FEE000-H'FEE0FF, H'FFFF20-H'FFFFE9: 458) x every byte value 0-255 written through Bus::write; afterwards every byte of the vector area and of both register blocks, on-chip RAM (quick: both ends, H'FFE000-H'FFE0FF and a stride; thorough: every byte) and DRAM samples are read through Bus::read and must be unchanged, a write-read round trip through 8 probe locations (one per region and per 256-byte alias candidate) must land in exactly that location, then the old register value is written back; port registers are only compared with non-port locations, timer registers with non-timer locations",
+            move |ctx, chunk| {
+                let regs: Vec<u32> = (mach::IO1_LO..=mach::IO1_HI).chain(mach::IO2_LO..=mach::IO2_HI).collect();
+                let (lo, hi) = chunk_range(regs.len() as u64, 64, chunk);
+                let probes = regsweep_probes(thorough);
+                for i in lo..hi {
+                    let a = regs[i as usize];
+                    for v in 0..=255u8 {
+                        ctx.st.cases += 1;
+                        ctx.st.nontrivial += 1;
+                        if let Some(msg) = regsweep_case(ctx, a, v, &probes) {
+                            ctx.custom_violation("c09reg", msg, json!({"op": "register-value", "addr": format!("{:x}", a), "value": v}), json!(null), json!(null));
+                            // put the machine back into a defined state
+                            ctx.m.fill_pristine();
+                            if ctx.stop {
+                                return;
+                            }
+                        }
+                    }
+                }
+                if ctx.m.full_compare().is_some() {
+                    let at = ctx.m.full_compare().unwrap();
+                    ctx.custom_violation("c09reg", format!("after the register sweep of this chunk memory differs from the image at {:06x}", at), json!({"op": "register-value", "addr": format!("{:x}", regs[lo as usize]), "value": 0}), json!(null), json!(null));
+                    ctx.m.fill_pristine();
+                }
+            },
+        ));
+    }
     // ---- histories of B/W/L writes and reads through the CPU's absolute-address path
     let edges: [u32; 10] = [0x000000, 0x0000ff, 0x400000, 0x5fffff, 0xfee000, 0xfee0ff, 0xffbf20, 0xffff1f, 0xffff20, 0xffffe9];
     let maxlen = if tier == Tier::Thorough { 4 } else { 3 };
@@ -501,6 +536,90 @@ pub fn c09(tier: Tier, _seed: u64) -> Prop {
             json!({"history_steps": steps})
         }),
         profiles: vec!["release"],
+    }
+}
+
+pub fn regsweep_probes(thorough: bool) -> Vec<u32> {
+    let mut p: Vec<u32> = Vec::new();
+    p.extend(mach::VEC_LO..=mach::VEC_HI);
+    p.extend(mach::IO1_LO..=mach::IO1_HI);
+    p.extend(mach::IO2_LO..=mach::IO2_HI);
+    if thorough {
+        p.extend(mach::RAM_LO..=mach::RAM_HI);
+    } else {
+        p.extend(mach::RAM_LO..mach::RAM_LO + 64);
+        p.extend(mach::RAM_HI - 63..=mach::RAM_HI);
+        p.extend(0xffe000u32..0xffe100);
+        p.extend((mach::RAM_LO..=mach::RAM_HI).step_by(251));
+    }
+    p.extend(mach::DRAM_LO..mach::DRAM_LO + 16);
+    p.extend(mach::DRAM_HI - 15..=mach::DRAM_HI);
+    p.extend(0x410000u32..0x410010);
+    p.extend((mach::DRAM_LO..=mach::DRAM_HI).step_by(if thorough { 4093 } else { 65521 }));
+    p.sort();
+    p.dedup();
+    p
+}
+
+/// One (register address, value) case of unit `register-values`.
+pub fn regsweep_case(ctx: &mut Ctx, a: u32, v: u8, probes: &[u32]) -> Option<String> {
+    let port = sem::is_port_reg(a);
+    let timer = sem::is_timer_reg(a);
+    let skip = |p: u32| -> bool { (port && sem::is_port_reg(p)) || (timer && sem::is_timer_reg(p)) };
+    let old = ctx.m.cpu.bus.read(a).ok()?;
+    if ctx.m.cpu.bus.write(a, v).is_err() {
+        return Some(format!("write of {:02x} to register {:06x} failed", v, a));
+    }
+    let mut bad: Option<String> = None;
+    for &p in probes {
+        if skip(p) {
+            continue;
+        }
+        let exp = if p == a { v } else { ctx.m.peek_shadow(p).unwrap() };
+        let got = ctx.m.cpu.bus.read(p).ok();
+        if got != Some(exp) {
+            bad = Some(format!("after writing {:02x} to register {:06x}, [{:06x}] reads {:?}; it held {:02x} and was not written", v, a, p, got, exp));
+            break;
+        }
+    }
+    if bad.is_none() {
+        // where do writes go now?  round trip through one location per region / alias candidate
+        for &p in &[0x000010u32, 0x0000f0, 0x400010, 0x5ffff0, 0xffe010, 0xffbf30, 0xfee090, 0xffff30] {
+            if skip(p) || p == a {
+                continue;
+            }
+            let before = ctx.m.peek_shadow(p).unwrap();
+            let x = !before;
+            let w = ctx.m.cpu.bus.write(p, x);
+            let back = ctx.m.cpu.bus.read(p).ok();
+            let stored = ctx.m.peek(p);
+            let _ = ctx.m.cpu.bus.write(p, before);
+            if w.is_err() || back != Some(x) || stored != Some(x) {
+                bad = Some(format!("after writing {:02x} to register {:06x}, a write of {:02x} to [{:06x}] reads back {:?} (storage byte {:?})", v, a, x, p, back, stored));
+                break;
+            }
+            if ctx.m.peek(p) != Some(before) {
+                bad = Some(format!("after writing {:02x} to register {:06x}, [{:06x}] cannot be restored through the bus", v, a, p));
+                break;
+            }
+        }
+    }
+    // the old value goes back through the bus as well
+    let _ = ctx.m.cpu.bus.write(a, old);
+    bad
+}
+
+/// replay handler for engine "c09reg"
+pub fn replay_c09reg(ctx: &mut Ctx, case: &Value) -> bool {
+    let addr = u32::from_str_radix(case["addr"].as_str().unwrap_or("0"), 16).unwrap_or(0);
+    let v = case["value"].as_u64().unwrap_or(0) as u8;
+    let probes = regsweep_probes(true);
+    match regsweep_case(ctx, addr, v, &probes) {
+        Some(m) => {
+            println!("FAILS: {}", m);
+            false
+        }
+        None => true,
     }
 }
 
